@@ -358,6 +358,10 @@ def main():
         [("set", 1, [], "S", "x y"), ("set", 1, ["x y"], "B", "v[1]"), ("set", 1, ["x y"], "B", "w"), ("select", 1, ["x y"], ["w"]),
          ("set", 0, [], "S", "deep"), ("set", 0, ["deep"], "S", "er"), ("move", 0, ["deep", "er"], 2), ("copy", 0, ["deep"]),
          ("copy", 3, [])],
+        # a selection naming ALL the children in another order, then copies of it (direct, and of a tree it was moved into)
+        [("set", 0, [], "S", "s"), ("set", 0, ["s"], "B", "a"), ("set", 0, ["s"], "B", "b"), ("set", 0, ["s"], "B", "c"),
+         ("select", 0, ["s"], ["c", "a", "b"]), ("copy", 2, []), ("set", 0, [], "S", "t"), ("move", 0, ["t"], 2), ("copy", 0, []),
+         ("copy", 0, ["t", "s"]), ("select", 1, [], [])],
     ]
     for sc in corpus:
         try:
